@@ -16,6 +16,9 @@ CHECKS = {
  'C06': ('axes', 'seeded typed patterns -> real PatternedTensors -> every operation of the class against torch on to_dense() -> TLC judge (Trace_Tensor): to_dense() equals the denotation PtDense computed by Axes.tla from the structure, results equal torch on dense, every result structure and (hook FGGS_VERIF) every PatternedTensor built inside the library satisfies the representation invariant; reshape/view obligations by MustReshape',
          '22 (quick) / 160 (thorough) typed shapes x 3-4 patterns x ~45 unary, ~22 binary operations, where, stack, copy_, indexing, iteration, reshape/view targets (all adjacent merges, unit insertions, arbitrary factorizations), float64/float32/bool, contiguous and transposed physical layouts, defaults 0/1/5/+-inf/NaN; the denotation is computed by the specification (index arithmetic of nested product/sum axes), not by the library.',
          'Trusted: TLC, Axes.tla, the float encoding round(1000 v) with tolerance 1+1e-5 relative (structural errors move values by far more), the structure read-back (paxes/vaxes/default/physical). Typed patterns only: sharing one physical axis between positions of different index types is the documented type mismatch and is excluded. Index types: numel<=6, depth<=2, <=3 axes.', 'DESIGN.md#c06'),
+ 'C07': ('einsum', 'seeded typed einsum signatures and operand patterns on exact carriers -> fggs.indices.einsum / mv / mm / log_viterbi_einsum_forward (with and without requires_grad) -> TLC judge (Trace_Einsum): operand denotations by Axes!PtDense, result = semiring sum over the non-output indices of the product by definition, Viterbi pointers in range and attaining the maximum',
+         '720 (quick) / 13 500 (thorough) signatures with <=4 typed indices and <=3 operands (incl. the empty operand list, zero-size and size-1 indices, repeated co-indexing across operands), operands with diagonal / sum-axis / product patterns, stride-0 expanded physical tensors, defaults zero/one/other, 4 semirings x 2 dtypes x requires_grad on/off; expected values are computed by TLC from the structures alone on exact carriers.',
+         'Trusted: TLC, Einsum.tla + Axes.tla + Semantics.tla (carrier arithmetic), carrier projections. Typed operands only. The Viterbi variant with both +inf and -inf operands is a recorded finding (third-party product).', 'DESIGN.md#c07'),
  'C08': ('semiring', 'TLC proves the laws on the carriers (MC_Semiring, R3) -> add/mul/sub/star/sum/from_int of the 4 semirings on all pairs/triples of carrier points, on Tensors and on PatternedTensors of 6 patterns -> TLC judge (Trace_Semiring) against the carrier operations',
          'All triples of carrier points (naturals incl. 0 and INF; integer log-weights incl. -INF/+INF; booleans; quarters for star) for every law, both dtypes, and all pairs of operand representations (dense, expanded, diagonal with default zero/one/INF, sum-axis embedding) for add/mul/sub.',
          'Trusted: TLC, Semiring.tla. The claim is restricted to the exact sub-carrier and the branch points of the closed forms: arbitrary finite floats (subnormals, huge values) cannot be enumerated by TLC and the laws do not hold bit-exactly under rounding.', 'DESIGN.md#c08'),
